@@ -54,6 +54,9 @@ def _tol(draw, k0, storable=False):
     return draw(st.sampled_from([max(k0, 1), max(k0, 1), k0 + 1, 1, 2, 5, 6]))
 
 
+UTT_NAMES = ["clip", "cli", "tap", "t", "p_p", "a.pt", "x.x", "seg.", "p_", "utt.p.t"]
+
+
 @st.composite
 def dir_case(draw, tier, plans=("valid", "valid", "repairable", "repairable", "repairable", "any", "any", "fatal1"),
              fix_choices=None, allow_missing=True, allow_huge=False):
@@ -191,6 +194,12 @@ def dir_case(draw, tier, plans=("valid", "valid", "repairable", "repairable", "r
                     r[0] = min(r[0], top)
                     if p["dtype"] == "int32":
                         r[1], r[2] = (max(min(x, 2 ** 31 - 1), -2 ** 31) for x in r[1:])
+    if n and draw(st.integers(0, 2)) == 0:
+        # utterance names made of the characters of the prefix / suffix, one a prefix of another, names containing the
+        # suffix: discovery strips exactly one prefix and one suffix and nothing else
+        names = draw(st.permutations(UTT_NAMES))
+        for i, u in enumerate(utts):
+            u["id"] = names[i]
     return {
         "prefix": draw(st.sampled_from(["", "", "p_"])),
         "suffix": draw(st.sampled_from([".pt", ".pt", ".x"])),
@@ -263,6 +272,8 @@ def _case_classes(case, model):
                 continue
             if p.get("layout", "own") != "own":
                 cl.add("layout_" + p["layout"])
+    if any(uid in UTT_NAMES for uid in model["utts"]):
+        cl.add("names_of_affix_characters")
     parts = list(model["utts"].values())
     if parts and all(p["feat"]["dtype"] == "torch.float16" for p in parts):
         cl.add("feat_float16")
@@ -354,7 +365,7 @@ def _strict_strategy(tier):
               "boundaries down to -2**63 and beyond 2**32, float16 features",
           required_classes=["valid", "defects_1", "defects_2", "defects_3plus", "defect_ref_over", "defect_ali_long",
                             "defect_ref_dim_mixed", "defect_feat_dtype_mixed", "defect_ref_half",
-                            "layout_offset", "layout_colslice", "layout_transposed", "layout_strided", "huge_ids",
+                            "layout_offset", "layout_colslice", "layout_transposed", "layout_strided", "huge_ids", "names_of_affix_characters",
                             "extreme_negative_bounds", "huge_bounds", "feat_float16"])
 def _strict_check(case):
     with dirs.scratch_root() as root:
@@ -517,7 +528,7 @@ def _history_check(case):
                     require(not left, "oracle: repaired directory not valid", left, [])
             elif op[0] == "corrupt":
                 _, i, part, src = op
-                uid = "u%d" % i
+                uid = case["utts"][i].get("id", "u%d" % i)
                 if uid not in model["utts"]:
                     continue
                 part, spec = _transplant(case, i, part, src)
